@@ -13,7 +13,7 @@ use mc::bfs::{bfs, par_states, Caps};
 use mc::ctx::*;
 use mc::json::J;
 use mc::mapsys::{check_live, flush_ledger, Alpha, MapSys};
-use mc::payload::{self as pl, Kx, ValT, Vx, KD, VD};
+use mc::payload::{self as pl, KeyT, Kx, ValT, Vx, KD, VD};
 use mc::setsys::{SAlpha, SetSys};
 use micromap::{Map, Set};
 
@@ -694,6 +694,346 @@ fn consuming_set<const N: usize>(ssys: &SetSys<Kx, N>, path: &[u32], cx: &mut Ct
     }
 }
 
+// ------------------------------------------------------------------------------------------
+// Element shapes: the same iterator properties on maps/sets of other key/value types (zero-sized
+// key and/or value, plain Copy, heap-owning, large, no-drop-glue). Generic over the payload
+// traits; entries are compared by their codes (keys are unique, so a key code identifies an entry).
+// ------------------------------------------------------------------------------------------
+type Code = (u8, u8, u8);
+
+macro_rules! gwalk {
+    ($cx:expr, $pm:expr, $name:expr, $mk:expr, $proj:expr, $total:expr) => {{
+        let total: usize = $total;
+        let mut it = $mk;
+        let mut got: Vec<Code> = Vec::new();
+        loop {
+            let rem = total.saturating_sub(got.len());
+            let l = ExactSizeIterator::len(&it);
+            let sh = it.size_hint();
+            $cx.check($pm, l == rem && sh == (rem, Some(rem)), || {
+                format!("{}: after {} items len() is {l} and size_hint {sh:?}, but {rem} items are still to come", $name, got.len())
+            });
+            match it.next() {
+                Some(x) => {
+                    got.push(($proj)(x));
+                    if got.len() > total + 2 {
+                        break;
+                    }
+                }
+                None => break,
+            }
+        }
+        for _ in 0..3 {
+            let more = it.next().is_some();
+            $cx.check($pm, !more, || format!("{}: yields an item after having returned None", $name));
+        }
+        for j in 0..=total {
+            let mut it = $mk;
+            for _ in 0..j {
+                it.next();
+            }
+            let c = it.count();
+            $cx.check($pm, c == total - j, || format!("{}: count() after {j} of {total} items is {c}", $name));
+        }
+        got
+    }};
+}
+
+fn sorted(mut v: Vec<Code>) -> Vec<Code> {
+    v.sort();
+    v
+}
+
+fn shape_map_state<K: KeyT, V: ValT, const N: usize>(sys: &MapSys<K, V, N>, path: &[u32], cx: &mut Ctx) {
+    let pm = C09;
+    let mut b = sys.build(path, cx);
+    let ents = b.model.entries();
+    let total = ents.len();
+    let want_kv = sorted(ents.iter().map(|(k, v)| (k.k, k.tag, v.v)).collect());
+    let want_k = sorted(ents.iter().map(|(k, _)| (k.k, k.tag, 0xFF)).collect());
+    let want_v = sorted(ents.iter().map(|(_, v)| (0xFF, 0xFF, v.v)).collect());
+    cx.here.op = format!("borrowing iterators on Map<{},{},{N}>", K::NAME, V::NAME);
+    {
+        let m: &Map<K, V, N> = &b.bx.c;
+        let pkv = |(k, v): (&K, &V)| -> Code { (k.kd().k, k.kd().tag, v.vd().v) };
+        let pk = |k: &K| -> Code { (k.kd().k, k.kd().tag, 0xFF) };
+        let pv = |v: &V| -> Code { (0xFF, 0xFF, v.vd().v) };
+        let o1 = gwalk!(cx, pm, "iter()", m.iter(), pkv, total);
+        cx.check(pm, sorted(o1.clone()) == want_kv, || format!("iter() yields {o1:?} but the stored entries are {want_kv:?}"));
+        let o2 = gwalk!(cx, pm, "(&map).into_iter()", m.into_iter(), pkv, total);
+        cx.check(pm, o1 == o2, || "two traversals without mutation differ".to_string());
+        let k1 = gwalk!(cx, pm, "keys()", m.keys(), pk, total);
+        cx.check(pm, sorted(k1.clone()) == want_k, || format!("keys() yields {k1:?} but the stored keys are {want_k:?}"));
+        let v1 = gwalk!(cx, pm, "values()", m.values(), pv, total);
+        cx.check(pm, sorted(v1.clone()) == want_v, || format!("values() yields {v1:?} but the stored values are {want_v:?}"));
+        let c: Vec<Code> = m.iter().clone().map(pkv).collect();
+        cx.check(pm, c == o1, || "a cloned iter() differs".to_string());
+    }
+    {
+        let m: &mut Map<K, V, N> = &mut b.bx.c;
+        let pkv = |(k, v): (&K, &mut V)| -> Code { (k.kd().k, k.kd().tag, v.vd().v) };
+        let pv = |v: &mut V| -> Code { (0xFF, 0xFF, v.vd().v) };
+        let o1 = gwalk!(cx, pm, "iter_mut()", m.iter_mut(), pkv, total);
+        cx.check(pm, sorted(o1.clone()) == want_kv, || format!("iter_mut() yields {o1:?} but the stored entries are {want_kv:?}"));
+        let o2 = gwalk!(cx, pm, "(&mut map).into_iter()", (&mut *m).into_iter(), pkv, total);
+        cx.check(pm, o1 == o2, || "two mutable traversals differ".to_string());
+        let v1 = gwalk!(cx, pm, "values_mut()", m.values_mut(), pv, total);
+        cx.check(pm, sorted(v1.clone()) == want_v, || format!("values_mut() yields {v1:?} but the stored values are {want_v:?}"));
+    }
+    // writes through the mutable iterators are what lookups return
+    for via_values in [false, true] {
+        let m: &mut Map<K, V, N> = &mut b.bx.c;
+        let nvals = V::MAXV.max(1);
+        let mut n_visited = 0usize;
+        let mut wrote: Vec<(u8, u8)> = Vec::new();
+        if via_values {
+            let order: Vec<u8> = m.iter().map(|(k, _)| k.kd().k).collect();
+            for (i, v) in m.values_mut().enumerate() {
+                let c = ((i + 1) as u8) % nvals;
+                v.set(c);
+                n_visited += 1;
+                if let Some(k) = order.get(i) {
+                    wrote.push((*k, V::mk(c).vd().v));
+                }
+            }
+        } else {
+            for (i, (k, v)) in m.iter_mut().enumerate() {
+                let c = ((i + 2) as u8) % nvals;
+                v.set(c);
+                n_visited += 1;
+                wrote.push((k.kd().k, V::mk(c).vd().v));
+            }
+        }
+        cx.check(pm, n_visited == total, || format!("mutable iteration visited {n_visited} of {total} entries"));
+        for (k, c) in &wrote {
+            let g = K::with_q(*k, |q| m.get(q).map(|v| v.vd().v));
+            cx.check(pm, g == Some(*c), || format!("after writing code {c} through the iterator, get(k{k}) gives {g:?}"));
+        }
+    }
+    cx.check(C02 | C09, b.bx.intact(), || "canary overwritten".to_string());
+    drop(b);
+    // consuming iterators and drain x every cut x {drop, forget}
+    let pm = C10;
+    for kind in 0..4u8 {
+        for take in 0..=total + 1 {
+            for forget in [false, true] {
+                let name = ["into_iter", "into_keys", "into_values", "drain"][kind as usize];
+                cx.here.op = format!("{name} on Map<{},{},{N}> take {take}{}", K::NAME, V::NAME, if forget { " then forget" } else { "" });
+                let mut b = sys.build(path, cx);
+                let mut got: Vec<Code> = Vec::new();
+                let mut held: Vec<(Option<K>, Option<V>)> = Vec::new();
+                macro_rules! eat {
+                    ($it:expr, $proj:expr, $keep:expr) => {{
+                        let mut it = $it;
+                        for step in 0..take {
+                            let rem = total.saturating_sub(step.min(total));
+                            let l = ExactSizeIterator::len(&it);
+                            let sh = it.size_hint();
+                            cx.check(pm, l == rem && sh == (rem, Some(rem)), || {
+                                format!("{name}: after {step} items len() is {l} and size_hint {sh:?}, but {rem} items are still to come")
+                            });
+                            match it.next() {
+                                Some(x) => {
+                                    got.push(($proj)(&x));
+                                    held.push(($keep)(x));
+                                }
+                                None => {
+                                    cx.check(pm, step >= total, || format!("{name}: ended after {step} of {total} items"));
+                                }
+                            }
+                        }
+                        let rem = total.saturating_sub(take.min(total));
+                        let l = ExactSizeIterator::len(&it);
+                        cx.check(pm, l == rem, || format!("{name}: after {take} items len() is {l}, expected {rem}"));
+                        if forget {
+                            std::mem::forget(it);
+                        } else {
+                            drop(it);
+                        }
+                    }};
+                }
+                if kind == 3 {
+                    eat!(b.bx.c.drain(), |x: &(K, V)| (x.0.kd().k, x.0.kd().tag, x.1.vd().v), |x: (K, V)| (Some(x.0), Some(x.1)));
+                    let m = &mut b.bx.c;
+                    cx.check(pm, m.is_empty() && m.len() == 0 && m.iter().next().is_none(), || format!("after drain (take {take}, forget {forget}) the map is not empty: len {}", m.len()));
+                    // fully reusable
+                    let fill = (N as u8).min(sys.nk);
+                    for k in 0..fill {
+                        m.insert(K::mk(k, 0), V::mk(0));
+                    }
+                    cx.check(pm, m.len() == fill as usize && m.iter().count() == fill as usize, || format!("after drain the map cannot be refilled: len {} of {fill}", m.len()));
+                    for k in 0..fill {
+                        let g = K::with_q(k, |q| m.get(q).map(|v| v.vd().v));
+                        cx.check(pm, g == Some(V::mk(0).vd().v), || format!("after drain and refill get(k{k}) gives {g:?}"));
+                    }
+                } else {
+                    let owned = std::mem::replace(&mut b.bx.c, Map::new());
+                    match kind {
+                        0 => eat!(owned.into_iter(), |x: &(K, V)| (x.0.kd().k, x.0.kd().tag, x.1.vd().v), |x: (K, V)| (Some(x.0), Some(x.1))),
+                        1 => eat!(owned.into_keys(), |x: &K| (x.kd().k, x.kd().tag, 0xFF), |x: K| (Some(x), None)),
+                        _ => eat!(owned.into_values(), |x: &V| (0xFF, 0xFF, x.vd().v), |x: V| (None, Some(x))),
+                    }
+                }
+                let want_all = match kind {
+                    1 => &want_k,
+                    2 => &want_v,
+                    _ => &want_kv,
+                };
+                // what was yielded is a sub-multiset of the contents, of the right size
+                let mut pool = want_all.clone();
+                let mut ok = got.len() == take.min(total);
+                for g in &got {
+                    match pool.iter().position(|p| p == g) {
+                        Some(i) => {
+                            pool.remove(i);
+                        }
+                        None => ok = false,
+                    }
+                }
+                cx.check(pm | C02, ok, || format!("{name} (take {take}) yielded {got:?} but the map held {want_all:?}"));
+                cx.check(C02 | pm, b.bx.intact(), || "canary overwritten".to_string());
+                drop(held);
+                drop(b);
+                cx.evaluations += 1;
+            }
+        }
+    }
+    if K::LEDGER || V::LEDGER || V::HAS_ID {
+        flush_ledger(cx, C02 | C09 | C10, "iterating an element shape");
+    }
+}
+
+fn shape_set_state<K: KeyT, const N: usize>(sys: &SetSys<K, N>, path: &[u32], cx: &mut Ctx) {
+    let pm = C09;
+    let b = sys.build(path, cx);
+    let want = sorted(b.model.elems().iter().map(|k| (k.k, k.tag, 0xFF)).collect());
+    let total = want.len();
+    cx.here.op = format!("iterators on Set<{},{N}>", K::NAME);
+    let pk = |k: &K| -> Code { (k.kd().k, k.kd().tag, 0xFF) };
+    let o1 = gwalk!(cx, pm, "Set::iter()", b.bx.c.iter(), pk, total);
+    cx.check(pm, sorted(o1.clone()) == want, || format!("Set::iter() yields {o1:?} but the elements are {want:?}"));
+    let o2 = gwalk!(cx, pm, "(&set).into_iter()", (&b.bx.c).into_iter(), pk, total);
+    cx.check(pm, o1 == o2, || "two traversals of a set differ".to_string());
+    drop(b);
+    let pm = C10;
+    for kind in 0..2u8 {
+        for take in 0..=total + 1 {
+            for forget in [false, true] {
+                let name = ["Set::into_iter", "Set::drain"][kind as usize];
+                cx.here.op = format!("{name} on Set<{},{N}> take {take}{}", K::NAME, if forget { " then forget" } else { "" });
+                let mut b = sys.build(path, cx);
+                let mut got: Vec<Code> = Vec::new();
+                let mut held: Vec<K> = Vec::new();
+                macro_rules! eat {
+                    ($it:expr) => {{
+                        let mut it = $it;
+                        for step in 0..take {
+                            let rem = total.saturating_sub(step.min(total));
+                            let l = ExactSizeIterator::len(&it);
+                            let sh = it.size_hint();
+                            cx.check(pm, l == rem && sh == (rem, Some(rem)), || {
+                                format!("{name}: after {step} items len() is {l} and size_hint {sh:?}, but {rem} items are still to come")
+                            });
+                            if let Some(x) = it.next() {
+                                got.push((x.kd().k, x.kd().tag, 0xFF));
+                                held.push(x);
+                            } else {
+                                cx.check(pm, step >= total, || format!("{name}: ended after {step} of {total} items"));
+                            }
+                        }
+                        if forget {
+                            std::mem::forget(it);
+                        } else {
+                            drop(it);
+                        }
+                    }};
+                }
+                if kind == 1 {
+                    eat!(b.bx.c.drain());
+                    let s = &mut b.bx.c;
+                    cx.check(pm, s.is_empty() && s.iter().next().is_none(), || format!("after Set::drain the set is not empty: len {}", s.len()));
+                    let fill = (N as u8).min(sys.nk);
+                    for k in 0..fill {
+                        s.insert(K::mk(k, 0));
+                    }
+                    cx.check(pm, s.len() == fill as usize, || format!("after Set::drain the set cannot be refilled: len {} of {fill}", s.len()));
+                } else {
+                    let owned = std::mem::replace(&mut b.bx.c, Set::new());
+                    eat!(owned.into_iter());
+                }
+                let mut pool = want.clone();
+                let mut ok = got.len() == take.min(total);
+                for g in &got {
+                    match pool.iter().position(|p| p == g) {
+                        Some(i) => {
+                            pool.remove(i);
+                        }
+                        None => ok = false,
+                    }
+                }
+                cx.check(pm | C02, ok, || format!("{name} (take {take}) yielded {got:?} but the set held {want:?}"));
+                drop(held);
+                drop(b);
+                cx.evaluations += 1;
+            }
+        }
+    }
+}
+
+fn run_shape<K: KeyT, V: ValT, const N: usize>(rep: &mut EngineReport, nk: u8, nv: u8, threads: usize) {
+    let msys = MapSys::<K, V, N>::new(nk, nv, Alpha::Gen);
+    let ssys = SetSys::<K, N>::new(nk, SAlpha::Gen, 0);
+    let config = format!("element shape: iterators over Map<{},{},{N}> / Set<{},{N}> keys={} values={}", K::NAME, V::NAME, K::NAME, msys.nk, msys.nv);
+    let t0 = std::time::Instant::now();
+    let mut q = Ctx::new(0);
+    let mout = bfs(&msys, threads, &Caps::default(), &mut q);
+    let sout = bfs(&ssys, threads, &Caps::default(), &mut q);
+    let mut cx = rep.cx.fork();
+    cx.here.config = config.clone();
+    par_states(mout.states.len(), threads, &mut cx, |s, lcx| {
+        let path = mout.path_of(s);
+        lcx.here.path_idx = path.clone();
+        lcx.here.path = path.iter().map(|i| msys.ops[*i as usize].to_string()).collect();
+        lcx.here.extra = format!("shape {}/{}", K::NAME, V::NAME);
+        if !mout.states[s].snap.is_empty() {
+            lcx.nontrivial += 1;
+        }
+        shape_map_state::<K, V, N>(&msys, &path, lcx);
+    });
+    par_states(sout.states.len(), threads, &mut cx, |s, lcx| {
+        let path = sout.path_of(s);
+        lcx.here.path_idx = path.clone();
+        lcx.here.path = path.iter().map(|i| ssys.ops[*i as usize].to_string()).collect();
+        lcx.here.extra = format!("shape set {}", K::NAME);
+        if !sout.states[s].snap.is_empty() {
+            lcx.nontrivial += 1;
+        }
+        shape_set_state::<K, N>(&ssys, &path, lcx);
+    });
+    rep.configs.push(
+        J::obj()
+            .set("config", config)
+            .set("map_states", mout.states.len())
+            .set("set_states", sout.states.len())
+            .set("wall_s", t0.elapsed().as_secs_f64()),
+    );
+    rep.states += (mout.states.len() + sout.states.len()) as u64;
+    rep.transitions += cx.evaluations;
+    rep.cx.merge(cx);
+}
+
+fn run_shapes<const N: usize>(rep: &mut EngineReport, nk: u8, nv: u8, threads: usize) {
+    run_shape::<(), (), N>(rep, nk, nv, threads);
+    run_shape::<(), u8, N>(rep, nk, nv, threads);
+    run_shape::<u8, (), N>(rep, nk, nv, threads);
+    run_shape::<u8, u8, N>(rep, nk, nv, threads);
+    run_shape::<u8, mc::payload::Big, N>(rep, nk, nv, threads);
+    run_shape::<String, String, N>(rep, nk, nv, threads);
+    run_shape::<mc::payload::Kn, mc::payload::Vn, N>(rep, nk, nv, threads);
+    run_shape::<(), Vx, N>(rep, nk, nv, threads);
+    run_shape::<Kx, (), N>(rep, nk, nv, threads);
+}
+
 fn run_n<const N: usize>(rep: &mut EngineReport, nk: u8, nv: u8, threads: usize, replay: Option<(Vec<u32>, bool)>) -> i32 {
     let msys = MapSys::<Kx, Vx, N>::new(nk, nv, Alpha::Gen);
     let ssys = SetSys::<Kx, N>::new(nk, SAlpha::Gen, 0);
@@ -736,9 +1076,14 @@ fn run_n<const N: usize>(rep: &mut EngineReport, nk: u8, nv: u8, threads: usize,
         if !mout.states[s].snap.is_empty() {
             lcx.nontrivial += 1;
         }
-        borrowing_map::<N>(&msys, &path, lcx);
-        consuming::<N>(&msys, &path, lcx);
-        derived_consuming::<N>(&msys, None, &path, lcx);
+        // sections are run only for the properties whose statements cover them
+        if lcx.enabled & (C09 | C02 | C06) != 0 {
+            borrowing_map::<N>(&msys, &path, lcx);
+        }
+        if lcx.enabled & (C10 | C02) != 0 {
+            consuming::<N>(&msys, &path, lcx);
+            derived_consuming::<N>(&msys, None, &path, lcx);
+        }
         lcx.sample(|| J::obj().set("history", lcx_path(&path, &msys)).set("state", mout.states[s].snap.render()).set("observed", "all iterator kinds x every step"));
     });
     par_states(sout.states.len(), threads, &mut cx, |s, lcx| {
@@ -752,9 +1097,13 @@ fn run_n<const N: usize>(rep: &mut EngineReport, nk: u8, nv: u8, threads: usize,
         if !sout.states[s].snap.is_empty() {
             lcx.nontrivial += 1;
         }
-        borrowing_set::<N>(&ssys, &path, lcx);
-        consuming_set::<N>(&ssys, &path, lcx);
-        derived_consuming::<N>(&msys, Some((&ssys, &path)), &[], lcx);
+        if lcx.enabled & (C09 | C02 | C06) != 0 {
+            borrowing_set::<N>(&ssys, &path, lcx);
+        }
+        if lcx.enabled & (C10 | C02) != 0 {
+            consuming_set::<N>(&ssys, &path, lcx);
+            derived_consuming::<N>(&msys, Some((&ssys, &path)), &[], lcx);
+        }
     });
     rep.configs.push(
         J::obj()
@@ -789,9 +1138,14 @@ fn main() {
         let code = mc::with_n!(n, run_n::<>(&mut rep, nk, nv, threads, Some((path, is_set))));
         std::process::exit(code);
     }
+    let shapes = args.flag("shapes");
     for n in ns {
         let nk = (n + 1) as u8;
-        mc::with_n!(n, run_n::<>(&mut rep, nk, nv, threads, None));
+        if shapes {
+            mc::with_n!(n, run_shapes::<>(&mut rep, nk, nv, threads));
+        } else {
+            mc::with_n!(n, run_n::<>(&mut rep, nk, nv, threads, None));
+        }
     }
     std::process::exit(rep.finish(args.get("out")));
 }
